@@ -1,9 +1,64 @@
-(* C15: reload is deterministic.  ONLY statements closed by `exact`, each followed by Print Assumptions.
-   (value part of the merge so far; theorems on the full live-tree model are being added) *)
-From Coq Require Import List.
-Require Import Merge2 Merge3.
+(* C15: reload is deterministic - last good file plus defaults.  ONLY statements closed by `exact`, each followed by Print Assumptions.
+   ConfMerge.merge / exec are the live-tree model compared with src/config.c on every run (dump and hook log).
+   lsorted / vsorted: child lists sorted by (case-folded name, kind); lwf, lplain: invariants of every reachable state (inv_run). *)
+From Coq Require Import List NArith Bool Strings.Byte Strings.String.
+Import ListNotations.
+Require Import Conf ConfMerge ConfOrder ConfBase ConfIdem ConfSorted ConfWalk ConfHooks ConfValues ConfHistory ConfCommute ConfInv ConfParseSorted ConfProps.
+Local Open Scope list_scope.
 
-(* merging the same file tree twice gives the same live tree as merging it once, for every live tree and every file tree *)
-Theorem second_identical_load_changes_nothing : forall s t, merge (merge t s) s = merge t s.
-Proof. exact merge_idem. Qed.
+(* everything at once, for ANY load in ANY state a script of registrations, loads and hook attachments can reach:
+   the new tree carries the file's values (agrees), the hook log is exactly the comparison of the tree before and after,
+   loading the same content again changes nothing and notifies nobody, and - when every typed text parses - the result is what the
+   same load gives on the tree that registration alone would have built (forget): no leftover of earlier files survives *)
+Theorem every_reachable_load : forall cs data tree,
+  parse data = inr tree ->
+  let root := LObj true true false (run cs) in
+  let root' := fst (merge [] root (VObj tree)) in
+  let e := snd (merge [] root (VObj tree)) in
+  fst (exec (run cs) (CLoad data)) = kidsof root' /\
+  agrees (VObj tree) root' /\
+  e = hooks_cmp [] root root' /\
+  merge [] root' (VObj tree) = (root', []) /\
+  (lparsable root' -> leqv root' (fst (merge [] (forget root) (VObj tree)))).
+Proof. exact reachable_load. Qed.
+Print Assumptions every_reachable_load.
+
+(* loading the same content twice changes nothing and fires no hook: every live tree, every file tree, no side condition *)
+Theorem second_identical_load_changes_nothing : forall path t s, let '(t1, e1) := merge path t s in merge path t1 s = (t1, []).
+Proof. exact load_idem_strong. Qed.
 Print Assumptions second_identical_load_changes_nothing.
+
+(* a hook runs exactly when the node's own effective value (leaf) or membership (object) changed, here or below *)
+Theorem hooks_run_exactly_on_change : forall path t s x, lsorted t -> vsorted s ->
+  (In x (snd (merge path t s)) <-> notified path t (fst (merge path t s)) x).
+Proof. exact hooks_exact_iff. Qed.
+Print Assumptions hooks_run_exactly_on_change.
+
+(* each setting equals the file's value, or is back at its default / gone when the file omits it *)
+Theorem values_are_the_files_or_defaults : forall path spec pres hook ks ss,
+  lsorted (LObj spec pres hook ks) -> vsorted (VObj ss) -> lwf (LObj spec pres hook ks) ->
+  exists ks' e, merge path (LObj spec pres hook ks) (VObj ss) = (LObj spec true hook ks', e) /\
+    (forall n s', In (n, s') ss -> exists c, lookupl n (kind s') ks' = Some c /\ agrees s' c) /\
+    (forall n k, lookup n k ss = None ->
+       match lookupl n k ks' with
+       | None => match lookupl n k ks with Some c => lspec c = false | None => True end
+       | Some c' => dflt_state c' /\ exists c, lookupl n k ks = Some c /\ lspec c = true
+       end).
+Proof. exact load_values. Qed.
+Print Assumptions values_are_the_files_or_defaults.
+
+(* registering before or after the load gives the same tree (names up to case; side conditions reg_ok: not re-registered with a
+   different default, typed text parses) *)
+Theorem registration_point_does_not_matter : forall st r tree,
+  inv st -> vsorted_kids tree -> reg_ok st r tree -> kids_eqv0 (reg_then_load st r tree) (load_then_reg st r tree).
+Proof. exact register_commutes_with_load. Qed.
+Print Assumptions registration_point_does_not_matter.
+
+(* C14's clause on the model: a load that reports an error leaves the state alone and prints no HOOK line *)
+Theorem failed_load_changes_nothing : forall st data e,
+  parse data = inl e ->
+  fst (exec st (CLoad data)) = st /\
+  snd (exec st (CLoad data)) = [S_ "LOAD ERR"%string] ++ flat_map (fun nv => dumpl 0 (fst nv) (snd nv)) st ++ [S_ "END"%string] /\
+  Forall (fun l => is_hookline l = false) (snd (exec st (CLoad data))).
+Proof. exact failed_load_unchanged. Qed.
+Print Assumptions failed_load_changes_nothing.
